@@ -29,6 +29,9 @@ __all__ = ["Calibration", "absmax_scale"]
 
 
 def _updated_scale(scale, new_scale, momentum):
+    if torch.all(new_scale == 0):
+        # A null range does not carry any information, and a null scale cannot be used to quantize
+        return scale
     if torch.all(scale == 1):
         return new_scale
     return momentum * scale + new_scale * (1.0 - momentum)
